@@ -60,6 +60,46 @@ def build(rng, sched, long_log):
     return {"rounds": rounds}
 
 
+def reread_family(run, v, thorough, prop="C15"):
+    import subprocess
+    from concurrent.futures import ThreadPoolExecutor
+    drv = run.gobuild("reread", module="harness/gated")
+    cases = [(b, h, a) for b in ((0, 1, 3, 12) if not thorough else (0, 1, 2, 3, 9, 10, 11, 12, 40))
+             for h in (150, 250) for a in ((0, 2) if not thorough else (0, 1, 2, 15))]
+    outs = {}
+
+    def one(i):
+        b, h, a = cases[i]
+        p = subprocess.run([drv, "-before", str(b), "-hold", str(h), "-after", str(a), "-scn", str(i + 1)], stdout=subprocess.PIPE,
+                           stderr=subprocess.PIPE, text=True, timeout=120, cwd=run.scratch)
+        if p.returncode != 0:
+            raise vlib.Inconclusive("reread driver exited %d: %s" % (p.returncode, p.stderr[-1500:]))
+        outs[i] = p.stdout
+    with ThreadPoolExecutor(max_workers=8) as ex:
+        list(ex.map(one, range(len(cases))))
+    tpath = os.path.join(run.scratch, "reread.ndjson")
+    with open(tpath, "w") as f:
+        for i in range(len(cases)):
+            f.write(outs[i])
+    nev, nscn = vlib.count_lines(tpath, '"op":"new"')
+    validated, rejected, tstates = vlib.validate_scenarios(run, "MsgLogTrace", "MsgLogTrace.cfg", tpath, timeout=600, max_rejections=4)
+    for rj in rejected:
+        scn, line = rj["scenario"], rj["line"]
+        e = scn[line - 1]
+        sig = "held-append:" + ("entry-handed-over-under-a-wrong-offset" if e["op"] == "handed" and not e.get("intact", True) else
+                                "entry-handed-over-again" if e["op"] == "handed" else classify(scn, line))
+        v.add(sig, "an append held between the segment's record count and the log's offset for %d ms (%d entries consumed before, %d appended after): "
+                   "step %s is not a step of MsgLog's consumer; recent steps: %s"
+              % (scn[0].get("hold_ms", 0), scn[0].get("before", 0), scn[0].get("after", 0), json.dumps(e),
+                 json.dumps([x for x in scn[max(0, line - 10):line] if x["op"] in ("append", "handed")])),
+              {"kind": "reread", "case": [scn[0].get("before"), scn[0].get("hold_ms"), scn[0].get("after")], "trace_tail": scn[max(0, line - 30):line]})
+    run.log("appends held between the counters: %d cases (%d events), %d rejected" % (len(cases), nev, len(rejected)))
+    return {"cases": len(cases), "events": nev, "validated": validated, "rejections": len(rejected), "trace_spec_states": tstates,
+            "rule": "the real messages.Log (Append, Consume, state file) on a copy of vx-labs/commitlog v1.2.4 whose only change is a gate between the two "
+                    "counters an append advances; the append is held there for 150 / 250 ms (longer than one poll of the consumer) after 0-40 entries were "
+                    "consumed, 0-15 more follow; MsgLogTrace.tla: every entry is handed over once, in order, under its own offset"}
+
+
 def check(run):
     thorough = run.tier == "thorough"
     rng = random.Random(run.seed)
@@ -120,8 +160,14 @@ def check(run):
         ctx = [x for x in scn[max(0, line - 12):line] if x["op"] not in ("cb.ret", "truncated")]
         v.add(sig, "log consumer: step %s is not a step of MsgLog's consumer; recent steps: %s" % (json.dumps(e), json.dumps(ctx)),
               {"kind": "msglog", "scenario": scns[idx], "trace_tail": scn[max(0, line - 40):line]})
+    # appends that race with the consumer at the end of the log (D27): a copy of the commit-log dependency with a scheduler gate
+    # between the two counters an append advances; the held append must change nothing about what is handed over
+    rr = reread_family(run, v, thorough)
+    validated += rr["validated"]
+    tstates += rr["trace_spec_states"]
     rc = v.finish()
     vlib.write_evidence(run, {
+        "appends_held_between_counters": rr,
         "traces_validated_against_impl": validated,
         "evaluations": kills,
         "distinct_nontrivial": len(scns),
@@ -144,6 +190,19 @@ def check(run):
 
 def replay(run, path):
     rp = json.load(open(path))
+    if rp.get("kind") == "reread":
+        import subprocess
+        b, h, a = rp["case"]
+        drv = run.gobuild("reread", module="harness/gated")
+        p = subprocess.run([drv, "-before", str(b), "-hold", str(h), "-after", str(a)], stdout=subprocess.PIPE, text=True, timeout=120)
+        tp = os.path.join(run.scratch, "reread.ndjson")
+        with open(tp, "w") as f:
+            f.write(p.stdout)
+        ok, line, detail, _ = run.validate("MsgLogTrace", "MsgLogTrace.cfg", tp)
+        print("replay: %s" % ("accepted (no violation)" if ok else "rejected at event %d" % line))
+        if not ok:
+            print("VIOLATION property=C15 replay=%s" % path)
+        return 0 if ok else 1
     spath = os.path.join(run.scratch, "scenarios.ndjson")
     with open(spath, "w") as f:
         f.write(json.dumps(rp["scenario"]) + "\n")
